@@ -48,7 +48,7 @@ def main():
     shards = [items[i::n] for i in range(n)]
     procs = []
     for i, shard in enumerate(shards):
-        v, r, log = "/tmp/ns-%d-verif" % i, "/tmp/ns-%d-repo" % i, "/tmp/ns-%d.log" % i
+        v, r, log = "/tmp/ns%d-%d-verif" % (os.getpid(), i), "/tmp/ns%d-%d-repo" % (os.getpid(), i), "/tmp/ns%d-%d.log" % (os.getpid(), i)
         shutil.rmtree(v, ignore_errors=True)
         shutil.rmtree(r, ignore_errors=True)
         sh("rsync -a --exclude build/cache --exclude .git --exclude evidence/replay %s/ %s/ && mkdir -p %s/build/cache" % (HERE, v, v))
